@@ -109,6 +109,30 @@ func main() {
 		})
 		hostOK := parsedFrom == picked+".Endpoint" && hostFrom == parsedVar+".Host" && schemeFrom == parsedVar+".Scheme"
 		tsOK := len(transportArgs) >= 3 && transportArgs[0] == "location" && transportArgs[1] == picked+".ProxyTransport" && transportArgs[2] == picked+".PorxyUpgradeTransport"
+		// 3. how syncEndpoints resets the load-balancer cursors (pkg/clusters/clusterinfo.go)
+		const cfile = "pkg/clusters/clusterinfo.go"
+		cf := g.ParseFile(cfile)
+		se := lib.FuncDecl(cf, "ClusterInfo", "syncEndpoints")
+		if se == nil || se.Body == nil {
+			lib.Fatalf("ClusterInfo.syncEndpoints not found in %s", cfile)
+		}
+		assignsNew, inPlace := false, false
+		ast.Inspect(se.Body, func(n ast.Node) bool {
+			switch x := n.(type) {
+			case *ast.AssignStmt:
+				if len(x.Lhs) == 1 && strings.HasSuffix(sel(x.Lhs[0]), ".loadbalancer") {
+					assignsNew = true // the sync.Map struct (its mutex included) is overwritten
+				}
+			case *ast.CallExpr:
+				if f := sel(x.Fun); strings.HasSuffix(f, ".loadbalancer.Delete") || strings.HasSuffix(f, ".loadbalancer.Range") {
+					inPlace = true
+				}
+			}
+			return true
+		})
+		if !assignsNew && !inPlace {
+			lib.Fatalf("syncEndpoints no longer resets c.loadbalancer in a way this extractor knows (neither an assignment nor Range/Delete)")
+		}
 		var b strings.Builder
 		b.WriteString("namespace KG.Gen.C03\n")
 		b.WriteString("/-! shape of dispatcher.ServeHTTP in " + file + " -/\n")
@@ -118,6 +142,7 @@ func main() {
 		fmt.Fprintf(&b, "/-- the error branch returns (nothing is forwarded) -/\ndef popErrorReturns : Bool := %v\n", returns)
 		fmt.Fprintf(&b, "/-- location.Scheme/Host come from url.Parse(<picked>.Endpoint) -/\ndef forwardHostFromPicked : Bool := %v\n", hostOK)
 		fmt.Fprintf(&b, "/-- the proxy handler uses <picked>.ProxyTransport / .PorxyUpgradeTransport -/\ndef transportFromPicked : Bool := %v\n", tsOK)
+		fmt.Fprintf(&b, "/-- syncEndpoints resets the cursors by assigning a new sync.Map to c.loadbalancer (overwriting the mutex inside) -/\ndef lbResetAssignsNewMap : Bool := %v\n", assignsNew)
 		b.WriteString("end KG.Gen.C03\n")
 		g.Emit("C03.lean", b.String())
 	})
